@@ -10,13 +10,17 @@ import time
 
 from . import catalog, cosim, dutgen, vlog
 from . import c01
+from . import c03_words, c03_edit
 from .common import muted, rng, shard_slice, stable_hash
 
 LEVEL = 'exploration'
 RULE = ('texts = Verilog emitted for (a) every catalogue block x configuration wrapped in a Dut three ways, (b) the same blocks as '
         'generation root, (c) sequential blocks, (d) random compositions, (e) naming-stress designs (reserved words, names that '
         'collide after prefixing, names equal to the implicit clock), (f) blocks reused with different optional ports, (g) library '
-        'system blocks (floating point, UART, AXI adapters) and transpiled behavioural classes; each text is parsed, resolved and '
+        'system blocks (floating point, UART, AXI adapters) and transpiled behavioural classes, (l) every reserved word of IEEE 1364-2005 '
+        '(own list) as root / child / grandchild port, interface element, net and instance name, one word per text, (m) construction '
+        'histories through the netlist-editing API (Interface add / remove / declare again / attach, same-named plain wires, '
+        'reconnectIn, disconnectWireFromLogicObject) that either raise or return text; each text is parsed, resolved and '
         'elaborated; non-trivial = text with >= 1 module instance or >= 2 modules or a procedural block; distinct by text hash '
         'after instance-id normalisation')
 SHARDS = {'quick': 1, 'thorough': 16}
@@ -93,6 +97,14 @@ def judge_text(run, text, label, case, blackboxes=(), root_kind='structural', si
                 continue
         run.violation(key, fields, dict(case, diag=dg.as_dict(), text=text[:6000]), observed=repr(dg),
                       what='%s: %r' % (label, dg))
+    # no declared / used identifier is a reserved word (own list of IEEE 1364-2005 words; the front end has its own and stops at
+    # the first one it meets, this clause looks at every name of a text that parsed)
+    if d.parse_ok:
+        run.count('texts_scanned_for_reserved_identifiers')
+        for mname, role, n in c03_words.reserved_identifiers(d):
+            run.violation('reserved_word_as_identifier', dict(code='reserved_identifier', where=family(mname), word=n, role=role),
+                          dict(case, text=text[:6000]), observed='%s %r in module %s' % (role, n, mname),
+                          what='%s: %s %r in module %s is a reserved word' % (label, role, n, mname))
     if run.evaluations % 211 == 1:
         run.sample(dict(design=label, modules=len(d.mods), instances=ninst, diags=[repr(x) for x in d.diags][:3], text_head=text[:200]))
     return d
@@ -160,7 +172,8 @@ def classify(dg, d, text, label):
             # a concatenation of zero wires (a width-0 intermediate net)
             return 'empty_concatenation', dict(code=code, construct='concatenation without operands')
         if 'reserved_word' in code:
-            return 'reserved_word_as_identifier', dict(code=code, where=fam)
+            mw = re.search(r"reserved word '([^']*)'", dg.detail)
+            return 'reserved_word_as_identifier', dict(code=code, where=fam, word=mw.group(1) if mw else '?')
         fields['construct'] = re.sub(r'\d+', 'N', dg.detail.split(': ', 1)[-1])[:80]
         return 'does_not_parse', fields
     if code == 'duplicate_declaration':
@@ -547,6 +560,66 @@ def run_check(run, tier, seed, shard):
             return
         judge_text(run, text, label, case)
         check_interchangeable(run, dut, label, case)
+        return text
+
+    # (l) every reserved word of IEEE 1364-2005 (own list) as port of the root / of a child / of a grandchild, as interface element,
+    # as local net and as instance name: one word per text
+    per_shape = run.extra.setdefault('reserved_word_texts_by_shape', {})
+    jobs = shard_slice(c03_words.word_designs(), shard)
+    reached = set()
+    for label, word, shape, f in jobs:
+        if run.too_many:
+            break
+        text = dut_text('reserved word %r as %s' % (word, label), f, dict(workload='reserved_words', word=word, shape=shape))
+        if text is None:
+            run.count('reserved_word_designs_refused')
+            continue
+        if re.search(r'(?<![A-Za-z0-9_])(reserved_|w_|i_)?%s(?![A-Za-z0-9_])' % re.escape(word), text):
+            per_shape[shape] = per_shape.get(shape, 0) + 1
+            reached.add(word)
+        else:
+            run.count('reserved_word_not_in_the_text')
+    if shard is None or shard[0] == 0:
+        run.count('reserved_words_in_the_list', len(c03_words.WORDS_1364_2005))
+    if shard is None:
+        run.count('reserved_words_that_reached_a_text', len(reached))
+    if jobs and not run.too_many:
+        want = len(set(j[1] for j in jobs))
+        if len(reached) < want:
+            run.inconclusive.append('reserved-word workload: only %d of %d words reached an emitted text' % (len(reached), want))
+
+    # (m) construction histories through the netlist-editing API (Interface add / remove / declare again / attach, plain wires of the
+    # same name, reconnectIn, disconnectWireFromLogicObject): a history either raises or its text passes the whole oracle
+    plans = c03_edit.directed_plans()
+    for i in range(150 if quick else 6000):
+        plans.append(c03_edit.random_plan(rng(seed, 'c03-edit', i)))
+    hist = run.extra.setdefault('edit_histories', {})
+    jobs = shard_slice(plans, shard)
+    edit_texts = 0
+    for plan in jobs:
+        if run.too_many:
+            break
+        shape = c03_edit.shape_of(plan)
+        try:
+            with muted():
+                hw, dut = c03_edit.build(plan)
+                text = py4hw.VerilogGenerator(dut).getVerilogForHierarchy()
+        except Exception as e:
+            k = shape + ': refused'
+            hist[k] = hist.get(k, 0) + 1
+            run.extra.setdefault('edit_refusal_examples', {}).setdefault(shape, ('%r' % (e,))[:160])
+            continue
+        k = shape + ': text'
+        hist[k] = hist.get(k, 0) + 1
+        edit_texts += 1
+        label = 'edit history (%s, %s)' % (plan['kind'], plan['scope'])
+        judge_text(run, text, label, dict(workload='edit_history', plan=plan))
+        check_interchangeable(run, dut, label, dict(workload='edit_history', plan=plan))
+    if jobs and not run.too_many:
+        if not any(k.endswith(': text') and k.startswith('remove') for k in hist):
+            run.inconclusive.append('edit histories: no history with a removal returned text')
+        if not any(k.startswith('remove, declare again') for k in hist):
+            run.inconclusive.append('edit histories: no history declared a removed element again')
 
     # (e) naming stress and (f) optional-port reuse
     jobs = [('naming', l, f) for l, f in naming_designs()] + [('reuse', l, f) for l, f in reuse_designs()]
